@@ -574,6 +574,33 @@ Definition apply_rw_items (r : rewrites) (orig_auth : list N) (l : list item) : 
   else filter (fun i => match i with IH h => negb (rw_drops r h) | ICookies => true end) l ++
        map IH (rw_inserts r orig_auth).
 
+(** The request pseudo-headers the H2 converter writes toward an HTTP/2 backend
+    ([converter.rs] StatusLine arm; [h2.rs] [write_streams] builds the converter
+    with [scheme] = the LISTENER's protocol): [:method], [:scheme], [:path],
+    [:authority], in that order. What the client claimed as its scheme (an
+    HTTP/2 client may send [:scheme: http] on a TLS listener) is not used. *)
+Definition h2_pseudo (c : ctx) (method path authority client_scheme : bytes) : list header :=
+  [ (B ":method", method); (B ":scheme", proto c); (B ":path", path); (B ":authority", authority) ].
+
+(** [H2BlockConverter] over successive write passes on one HTTP/2 connection. A
+    pass offers the header blocks parsed since the last one and says whether the
+    [Flags] block closing their group is queued (a head always is: both parsers
+    hand it over complete; an HTTP/1.1 TRAILER section can arrive in several reads,
+    the parser is then in phase [Trailers]). The converter starts the group only
+    when it is closed: until then the blocks stay queued ([kawa.blocks.push_front],
+    [return false]). [c_tbl] is what the
+    HPACK encoder has indexed, [c_wire] the fields the peer has received. *)
+Record cstate := mkc { c_q : list header; c_tbl : list header; c_wire : list header }.
+
+Definition conv_step (s : cstate) (p : list header * bool) : cstate :=
+  let q' := c_q s ++ fst p in
+  if snd p then mkc [] (c_tbl s ++ q') (c_wire s ++ q') else mkc q' (c_tbl s) (c_wire s).
+
+(** the converter before the fix: an unclosed group was encoded (indexed) and the bytes dropped *)
+Definition conv_step_unfixed (s : cstate) (p : list header * bool) : cstate :=
+  let q' := c_q s ++ fst p in
+  if snd p then mkc [] (c_tbl s ++ q') (c_wire s ++ q') else mkc [] (c_tbl s ++ q') (c_wire s).
+
 (** [Router::connect] runs once per backend connection ATTEMPT on the same
     request (a refused / timed-out backend is retried on another one); the
     frontend's policy is applied on the first attempt only
